@@ -105,6 +105,45 @@ def alternating_processes(a):
     return out
 
 
+def aborted_then_completed(a):
+    """(child) a session whose `with` block is left by an exception (after a shard has already been rotated), then a completed
+    session into the same directory.  Nothing is asserted about what the aborted session published; the completed session must
+    add exactly what it wrote to what a reader saw before it started."""
+    from harness.core import sp
+    sp.sedpack()
+    from sedpack.io import Dataset
+    from sedpack.io.dataset_filler import DatasetFiller
+    root = Path(a["root"]); shutil.rmtree(root, ignore_errors=True)
+    ds = sp.mk(root, fmt=a["fmt"], eps=2, hashes=tuple(a["hashes"]))
+    out = {"case": {k: a[k] for k in a if k != "root"}, "problems": []}
+    v = [0]
+    def fill(n, boom=False):
+        with DatasetFiller(ds if not a["reopen"] else Dataset(root), relative_path_from_split=Path(a["sub"])) as f:
+            for _ in range(n):
+                f.write_example(values=sp.val(v[0]), split="train"); v[0] += 1
+            if boom:
+                raise RuntimeError("the caller's own code failed inside the with block")
+    try:
+        fill(3)
+        try:
+            fill(5, boom=True)
+        except RuntimeError:
+            pass
+        before = sorted(sp.read_ids(Dataset(root), "train"))
+        lo = v[0]
+        fill(3)
+        after = sorted(sp.read_ids(Dataset(root), "train"))
+        want = sorted(before + list(range(lo, lo + 3)))
+        if after != want:
+            out["problems"].append(f"a completed session that wrote {list(range(lo, lo + 3))} turned the readable examples {before} into {after}")
+        if not set(range(3)) <= set(after):
+            out["problems"].append(f"examples of the first completed session are gone: {after}")
+    except Exception as e:  # noqa: BLE001
+        out["problems"].append(f"{type(e).__name__}: {str(e)[:200]}")
+    shutil.rmtree(root, ignore_errors=True)
+    return out
+
+
 def run(ctx):
     nest = child.call("harness.checks.c08", "nested_sessions",
                       [{"root": str(ctx.scratch / f"c08n_{i}"), "fmt": ["fb", "npz", "tfrec"][i % 3], "eps": 1 + i % 3, "multi": bool(i % 2)} for i in range(ctx.pick(3, 9))], timeout=900)
@@ -118,6 +157,12 @@ def run(ctx):
                                                                        "hashes": [["sha256"], []][j % 2], "sub": sub}, timeout=900)
         if r["problems"]:
             ctx.report({"kind": "append-only", "two_processes": True}, f"two writer processes taking turns (sub-directory {sub!r}): {r['problems'][0]}", {"case": r["case"], "problems": r["problems"]})
+    for j, sub in enumerate([".", "part_a", "."][: ctx.pick(2, 3)]):
+        r = child.call("harness.checks.c08", "aborted_then_completed", {"root": str(ctx.scratch / f"c08_abort{j}"), "fmt": ["npz", "fb", "tfrec"][(j + ctx.seed) % 3],
+                                                                          "hashes": [["sha256"], []][j % 2], "sub": sub, "reopen": bool(j % 2)}, timeout=600)
+        if r["problems"]:
+            ctx.report({"kind": "append-only", "after_aborted_session": True}, f"a completed session after one whose with-block was left by an exception ({sub!r}): {r['problems'][0]}",
+                       {"case": r["case"], "problems": r["problems"]})
     cases = c04.gen(ctx, "c08")
     results = []
     for i in range(0, len(cases), 10):
